@@ -577,7 +577,7 @@ func init() {
 		Rule: "same document space as C03 (choice explorer, <=d deviations, shorthand areas open) plus a string alphabet placed at every string position: with p = Parse(doc): " +
 			"json(p) and yaml(p) are re-parsed; step kinds, canonical memory dumps (ordered-map order kept; numbers by value; timestamp == RFC 3339 text; typed empty == nil) and " +
 			"json(.) bytes must agree between p, Parse(json(p)) and Parse(yaml(p)); CommandStep.UnmarshalJSON and Plugins.UnmarshalJSON round-trip; repeated marshalling is byte-identical, " +
-			"also under every iteration order of the marshaller's map loops (seam). Non-trivial = at least one non-default choice / non-plain string.",
+			"also under every iteration order of the marshaller's map loops (seam: three base documents); Parse itself under the seam (base documents and a document whose steps carry keys of several kinds) must give the same pipeline for every explored order. Non-trivial = at least one non-default choice / non-plain string.",
 		Assumptions: []string{
 			"YAML leg: multi-line strings that begin with whitespace are excluded (property text); mapping key '<<' excluded on the YAML leg (yaml.v3 emits it plain)",
 			"dependencies (encoding/json, yaml.v3) sort map keys deterministically",
